@@ -3,6 +3,7 @@ package chainsim
 import (
 	"context"
 	"errors"
+	"fmt"
 	"time"
 
 	"github.com/protolambda/zrnt/eth2/beacon/bellatrix"
@@ -40,8 +41,15 @@ func (e *scriptedEngine) answer(c engineCall) (bool, error) {
 	i := len(e.calls)
 	e.calls = append(e.calls, c)
 	if e.armed && i == e.failAt {
-		if e.verdict == "error" {
+		switch e.verdict {
+		case "error":
 			return false, errEngine
+		case "timeout":
+			// the engine's own deadline expired (its error wraps a context error) while the CALLER's
+			// context is alive: still an error of the engine
+			return false, fmt.Errorf("engine request failed: %w", context.DeadlineExceeded)
+		case "valid+error":
+			return true, errEngine // an answer that carries an error is an error
 		}
 		return false, nil
 	}
